@@ -1044,6 +1044,13 @@ pub async fn bankruptcy(w: &mut World, m: &mut Mon, r: &mut R, lev: &Lev, g: usi
         let i = ix::configure_bank(w.groups[g].key, admin.pubkey(), w.banks[db].key, opt);
         let _ = w.exec(m, &[i], &[&admin]).await;
     }
+    if r.gen_bool(0.6) {
+        // some time passes between the bank's last instruction and the settlement: the settlement is
+        // the instruction that has to bring the interest up to date
+        w.chain.advance(pick(r, &[1i64, 60, 3600, 86_400]));
+        w.refresh_oracles();
+        m.r.count("scen.bankruptcy_after_elapsed_time");
+    }
     {
         // the same settlement with the bank's liquidity vault replaced by somebody's own token account
         // of the same mint (the insurance payout would go there): simulated, judged if accepted
